@@ -255,6 +255,8 @@ def gen_ops(rng, root, env, n, profile="mixed", bad=0.3):
         elif kind in ("load_tree", "loads"):
             tree = gen.tree_for(rng, root, env, valid=(want == "valid"), partial=0.5)
             op = {"op": kind, "tree": tree}
+            if kind == "load_tree" and (len(tree) + len(ops)) % 4 == 0:
+                op["no_validate"] = True  # load_tree(tree, validate=False) - used only when the tree is acceptable anyway
             if kind == "loads":
                 op["fmt"] = rng.choice(FORMATS)
                 if rng.random() < 0.35:
@@ -891,7 +893,11 @@ class Driver:
         before = self.snapshot()
         label, pred = self._predict_load(op["tree"], before)
         tree = spec.realize(self.cc, copy.deepcopy(op["tree"]))
-        exc = self._run(lambda: self.cfg.load_tree(tree))
+        if op.get("no_validate") and label is True:
+            self.res.count("trees_loaded_without_the_final_validation")
+            exc = self._run(lambda: self.cfg.load_tree(tree, validate=False))
+        else:
+            exc = self._run(lambda: self.cfg.load_tree(tree))
         if pred is None:
             pred = Prediction(None, None)
             pred.unpredicted = True
@@ -1252,10 +1258,13 @@ class Driver:
         before = self.snapshot()
         fn = {
             "setitem": lambda: proxy.__setitem__(k, v), "update": lambda: proxy.update(arg()),
-            "update_kw": lambda: proxy.update(**dict(pairs)), "setdefault": lambda: proxy.setdefault(k, v),
+            "update_kw": (lambda: proxy.update(proxy.copy(), **dict(pairs))) if (len(pairs) + len(proxy)) % 2 else (lambda: proxy.update(**dict(pairs))),
+            "setdefault": lambda: proxy.setdefault(k, v),
             "ior": lambda: proxy.__ior__(arg()), "pop": lambda: proxy.pop(k, None), "popitem": lambda: proxy.popitem(),
             "delitem": lambda: proxy.__delitem__(k), "clear": lambda: proxy.clear(),
         }[name]
+        if name == "update_kw" and (len(pairs) + len(proxy)) % 2:
+            self.res.count("dict_updates_with_own_copy_and_keywords")
         exc = self._run(fn)
         pred = Prediction(clone(before.values), dict(before.flags))
         pset(pred.values, path, Unknown)
